@@ -300,7 +300,7 @@ def shrink(text, variant, n, kind, pair):
         except Exception:
             return None
         for f in fl:
-            if f["kind"] == kind:
+            if f["kind"] == kind and f["diag"] == (pair[0] == pair[1]):
                 return f
         return None
     lines = [l for l in text.strip().split("\n") if l.strip()]
@@ -347,7 +347,7 @@ def scenarios(chk, quick):
 
 def run(chk):
     quick = chk.tier == "quick"
-    ok, log = chk.prove()
+    ok, log = chk.prove(["extract/Extract_ED.vo"])      # the oracle driver is built from the extracted specification
     chk.trusted += ["translator/gen_c11.py and translator/cexpr.py (C++ expression -> Gallina)",
                     "harness/h_ed.cpp, harness/ed_common.h, ocaml/driver_ed.ml + extraction of PV.EDSpec at binary64 (oracle for G, G(tau)), tools/edlib.py",
                     "python float evaluation of the proved closed forms (term_tau via log1p; sums over the dumped term lists)",
@@ -360,6 +360,7 @@ def run(chk):
     first = {}
     nscen = 0
     maxbp = 0.0
+    famhist = {}
     for (name, symm, variant, text, n) in scenarios(chk, quick):
         fails, cases, info = evaluate(text, variant, n)
         nscen += 1
@@ -369,8 +370,9 @@ def run(chk):
             chk.notes.append("scenario %s/%s did not build: %s" % (name, symm, info.get("error") or info.get("crash")))
             continue
         maxbp = max(maxbp, info.get("max_beta_pole", 0.0))
+        famhist["%s/%s/%s" % (name, symm, variant)] = famhist.get("%s/%s/%s" % (name, symm, variant), 0) + len(cases)
         for (canon, sig, nt) in cases:
-            chk.case("%s|%s|%s|%s|%s" % (name, symm, variant, text, canon), "%s/%s/%s %s" % (name, symm, variant, sig), nontrivial=nt,
+            chk.case("%s|%s|%s|%s|%s" % (name, symm, variant, text, canon), "%s [%s,%s]" % (sig, symm, variant), nontrivial=nt,
                      sample={"family": name, "symm": symm, "variant": variant, "case": canon, "beta": info.get("beta")} if canon.startswith("conj 0 1") else None)
         for t in info.get("throws", []):
             key = "throws %s" % t.split()[1]
@@ -393,6 +395,7 @@ def run(chk):
                       {"harness": "h_ed", "variant": variant, "scenario": stext, "n_modes": n, "kind": f["kind"], "pair": sf["pair"],
                        "detail": sf["detail"], "unshrunk_scenario": text})
     chk.extra["scenarios"] = nscen
+    chk.extra["cases_by_family"] = famhist
     chk.extra["max_beta_times_pole"] = maxbp
     chk.rule = ("scenarios: every family of tools/scen.py (Hubbard atom, two-site incl. spin-flip hopping, Anderson, free degenerate, atomic limit, "
                 "Kanamori, exchange) with default and with ignored symmetries, pairing and spinless models (symmetries ignored), small beta, and "
@@ -421,7 +424,7 @@ def replay(chk, path):
             print("no identity fails on this scenario now")
         for (canon, sig, nt) in cases:
             chk.case(canon, sig, nontrivial=nt)
-        chk.prove()
+        chk.prove(["extract/Extract_ED.vo"])
         return chk.finish()
     run(chk)
     return chk.finish()
